@@ -215,6 +215,9 @@ def case_strategy(draw, driver=None):
             "tie": draw(st.booleans())}
     if drv == "tridonic":
         case["seq0"] = draw(st.sampled_from([1, 100, 254, 255]))
+    if drv == "luba" and draw(st.integers(0, 3)) == 0:
+        # line noise while the line is idle, before anybody sends: one stray byte (the frame-start byte, or another)
+        case["inject"] = [{"t": -0.004, "kind": "noise", "data": draw(st.sampled_from(["59", "59", "00", "ff", "5931"]))}]
     if drv == "sci" and draw(st.integers(0, 2)) == 0:
         # the interface reports an ERROR status (collision) instead of the confirmation for some command frames
         case["sci_tx_errors"] = draw(st.lists(st.booleans(), min_size=1, max_size=10))
